@@ -19,6 +19,8 @@ def cases(seed=0, n=6):
             out.append({'id': f'maskarrT{k}', 'fn': 'mask_grid_data_array', 'mask': m, 'data': dataT, 'dims': ['x', 'y', 't']})
             ints = [[rng.randint(-9, 9) for _ in range(nx)] for _ in range(ny)]
             out.append({'id': f'maskint{k}', 'fn': 'mask_grid_data_array', 'mask': m, 'data': ints, 'dims': ['y', 'x'], 'dtype': 'int32', 'attrs': {'_FillValue': -99}})
+            # a short variable whose missing value is stored as a double the short type cannot hold: where() promotes to float64
+            out.append({'id': f'maskwide{k}', 'fn': 'mask_grid_data_array', 'mask': m, 'data': ints, 'dims': ['y', 'x'], 'dtype': 'int16', 'attrs': {'missing_value': 1e35}})
     # connectivity decoding
     faces = [[0, 1, 4, 3], [1, 2, 5], [1, 5, 4], [3, 4, 7, 6]]
     for si, fill, tr in itertools.product((0, 1), ('int_fill', 'nan'), (False, True)):
